@@ -211,6 +211,14 @@ SetOpt(i, route, kv) ==
     /\ UNCHANGED <<live, plug, active, rr, ctx, env>>
     /\ Log([op |-> "setopt", i |-> i, route |-> route, k |-> kv[1], v |-> kv[2]])
 
+(* one instance is handed another's options object (md_i.set(md_j.options)): i gets j's option VALUES; the two    *)
+(* instances stay separate, whatever is written to either afterwards                                                *)
+ShareOpts(i, j) ==
+    /\ live[i] /\ live[j] /\ i # j
+    /\ opts' = [opts EXCEPT ![i] = opts[j]]
+    /\ UNCHANGED <<live, plug, active, rr, ctx, env>>
+    /\ Log([op |-> "share_opts", i |-> i, j |-> j])
+
 AddRenderRule(i, n) ==
     /\ live[i]
     /\ rr' = [rr EXCEPT ![i] = @ \cup {n}]
@@ -269,6 +277,7 @@ Next ==
     \/ \E i \in Inst, ns \in NameSets, c \in ChainToggleChains, k \in {"enable", "disable", "enableOnly"} :
            ChainToggle(k, i, c, ns)
     \/ \E i \in Inst, route \in {"item", "attr"}, kv \in OptChoices : SetOpt(i, route, kv)
+    \/ \E i \in Inst, j \in Inst : ShareOpts(i, j)
     \/ \E i \in Inst, n \in RRNames : AddRenderRule(i, n)
     \/ \E i \in Inst : EnterReset(i)
     \/ \E i \in Inst, how \in {"normal", "exception"} : ExitReset(i, how)
